@@ -172,6 +172,30 @@ def handler : Handler := fun op j =>
         ("adj_dt_actual", jDtRes (match o.evalDt md.inDt with
             | .ok d => o.adjCallDt d
             | .error e => .error e))]))
+  | "stack" => do
+    let es ← (field? j "es").bind (getListOf? getExpr?)
+    let kind ← fStr? j "kind"
+    let lin := (fBool? j "lin").getD true
+    let cIn := (fBool? j "cin").getD true
+    let cOut := (fBool? j "cout").getD true
+    let xs ← (optField? j "xs" (getListOf? getCxs?))
+    let ys ← (optField? j "ys" (getListOf? getCxs?))
+    let r := if kind == "v" then buildVStack lin es cOut else buildDStack lin es cIn cOut
+    match r with
+    | .error k => some (err k.name)
+    | .ok o =>
+      let md := o.md
+      let n := md.inShape.size
+      let m := md.outShape.size
+      let evs := (xs.getD []).map (fun x => vecOut m (o.eval (vcOf x)).get)
+      let ads := if lin then (ys.getD []).map (fun y => vecOut n (o.adj (vcOf y)).get) else []
+      some (ok (jObj [
+        ("cls", jS md.cls.name), ("in_shape", jShape md.inShape), ("out_shape", jShape md.outShape),
+        ("in_dtype", jS md.inDt.name), ("out_dtype", jS md.outDt.name),
+        ("matrix_shape", jNs [md.matrixShape.1, md.matrixShape.2]),
+        ("eval", jArr evs), ("adj", jArr ads),
+        ("eval_dt", jDtRes (o.evalDt md.inDt)),
+        ("adj_dt", if lin then jDtRes (o.adjCallDt md.outDt) else Json.null)]))
   | "result_type" => do
     let a ← fDT? j "a"
     let k ← getKind? j
